@@ -40,6 +40,38 @@ TOL = 1e-9
 # ------------------------------------------------------------------------------------
 # grid recipes
 # ------------------------------------------------------------------------------------
+def renumbered_grid(g, ren):
+    """The same grid with nodes, faces and cells renumbered (node i -> pn[i], face -> pf, cell ->
+    pc), built with the public pp.Grid constructor: nodes, face_nodes and cell_faces are
+    permuted consistently, so face_nodes is in general NOT the identity for 1-D grids."""
+    pn, pf, pc = (np.array(ren[k], dtype=int) for k in ("pn", "pf", "pc"))
+    nn, nf, nc = g.num_nodes, g.num_faces, g.num_cells
+    Pn = sps.csc_matrix((np.ones(nn, dtype=int), (pn, np.arange(nn))), shape=(nn, nn))
+    Pf = sps.csc_matrix((np.ones(nf, dtype=int), (pf, np.arange(nf))), shape=(nf, nf))
+    Pc = sps.csc_matrix((np.ones(nc, dtype=int), (pc, np.arange(nc))), shape=(nc, nc))
+    nodes = np.zeros_like(g.nodes)
+    nodes[:, pn] = g.nodes
+    fn = (Pn @ g.face_nodes.astype(int) @ Pf.T).tocsc().astype(bool)
+    cf = (Pf @ g.cell_faces.astype(int) @ Pc.T).tocsc()
+    fn.sort_indices()
+    cf.sort_indices()
+    h = pp.Grid(g.dim, nodes, fn, cf, "renumbered")
+    h.compute_geometry()
+    return h
+
+
+def gen_renum(rng, g, same_nf=False):
+    pn = list(range(g.num_nodes))
+    rng.shuffle(pn)
+    pf = list(range(g.num_faces))
+    rng.shuffle(pf)
+    pc = list(range(g.num_cells))
+    rng.shuffle(pc)
+    if same_nf and g.dim == 1:
+        pf = list(pn)
+    return {"pn": pn, "pf": pf, "pc": pc}
+
+
 def build_1d(rec):
     """1-D grid from increasing abscissae xs, optional embedding (y = sy*x, z = sz*x) and
     optional renumbering of nodes and cells (so that start+1 != end)."""
@@ -64,6 +96,8 @@ def build_1d(rec):
         cf = sps.csc_matrix((data, (rows, cols)), shape=(n, n - 1))
         g = pp.Grid(1, new_nodes, sps.identity(n, format="csc"), cf, "renumbered 1d")
     g.compute_geometry()
+    if rec.get("renum"):
+        g = renumbered_grid(g, rec["renum"])
     return g
 
 
@@ -76,12 +110,17 @@ def gen_1d(rng, tier, embed=True, renumber=True):
     if embed and rng.random() < 0.4:
         rec["sy"] = rng.choice([0.5, 1.0, -2.0])
         rec["sz"] = rng.choice([0.0, 0.0, 0.25])
-    if renumber and rng.random() < 0.35:
-        perm = list(range(n + 1))
-        rng.shuffle(perm)
-        cperm = list(range(n))
-        rng.shuffle(cperm)
-        rec["perm"], rec["cperm"] = perm, cperm
+    if renumber:
+        u = rng.random()
+        if u < 0.25:
+            perm = list(range(n + 1))
+            rng.shuffle(perm)
+            cperm = list(range(n))
+            rng.shuffle(cperm)
+            rec["perm"], rec["cperm"] = perm, cperm
+        elif u < 0.6:
+            # nodes, faces and cells permuted independently: face_nodes is not the identity
+            rec["renum"] = gen_renum(rng, build_1d(rec), same_nf=rng.random() < 0.3)
     return rec
 
 
@@ -98,10 +137,20 @@ def build_tri(rec):
         p = np.array(rec["pts"], dtype=float).T
         g = pp.TriangleGrid(np.vstack((p, np.zeros(p.shape[1]))), np.array(rec["tri"]).T)
     g.compute_geometry()
+    if rec.get("renum"):
+        g = renumbered_grid(g, rec["renum"])
     return g
 
 
 def gen_tri(rng, tier):
+    rec = _gen_tri(rng, tier)
+    if rng.random() < 0.35:
+        # same triangles with permuted node / face / cell numbering (a plain pp.Grid)
+        rec["renum"] = gen_renum(rng, build_tri(rec))
+    return rec
+
+
+def _gen_tri(rng, tier):
     r = rng.random()
     if r < 0.6:
         rec = {"kind": "struct", "dims": [rng.randint(1, 3), rng.randint(1, 3 if tier != "quick" else 2)]}
@@ -134,6 +183,17 @@ def build_base(rec):
         return build_1d(rec["rec"])
     if k == "cart2":
         g = pp.CartGrid(np.array(rec["dims"]))
+        g.compute_geometry()
+        if rec.get("renum"):
+            g = renumbered_grid(g, rec["renum"])
+        return g
+    if k == "frac":
+        # a subdomain of a real fractured md-grid (crossing fractures: the 1-D grids have
+        # split faces and face_nodes is not the identity; the 2-D grid has split faces/nodes)
+        fracs = [np.array(f, dtype=float) for f in rec["fracs"]]
+        mdg = pp.meshing.cart_grid(fracs, np.array(rec["dims"]))
+        sds = [sd for sd in mdg.subdomains() if sd.dim == rec["dim"]]
+        g = sds[rec["pick"] % len(sds)]
         g.compute_geometry()
         return g
     return build_tri(rec["rec"])
@@ -178,13 +238,19 @@ class C23(Prop):
         "modelled (validity of the grid is oracle-only); structured_refinement in 2-D/3-D "
         "(point_in_polygon/polyhedron) is oracle-only; remesh_1d's tag transfer is not covered; float "
         "rounding. Trusted: Coq kernel + vm_compute, the harness, g.face_centers of a 2-D grid = edge "
-        "midpoints (checked in the tie), get_all_boundary_nodes.")
+        "midpoints (checked in the tie), get_all_boundary_nodes (only for the tie; the remesh oracle finds "
+        "the old end points geometrically). The models do not assume any node/face/cell numbering: "
+        "renumbered grids and real fracture grids go through the same tie (node layers, cell map, "
+        "per-child measures) and the per-parent measure + node-by-node prism nesting oracle.")
     technique = ("Coq proof (field/ring identities over Q, list induction, lia on div/mod) + vm_compute "
                  "execution correspondence in Q + brute-force oracles on real grids")
-    rule = ("kinds: ref1d 25% (1-D grids with unequal dyadic spacing, 40% embedded in 3-D, 35% with "
-            "shuffled node/cell numbering, ratios 1-5), remesh 12%, reftri 25% (structured triangle grids, "
+    rule = ("kinds: ref1d 25% (1-D grids with unequal dyadic spacing, 40% embedded in 3-D, 25% with "
+            "shuffled node/cell numbering, 35% with independently permuted node, face and cell numbering "
+            "(face_nodes not the identity), ratios 1-5), remesh 12% (same grids, a third of them after "
+            "refine_grid_1d), reftri 25% (structured triangle grids, "
             "perturbed, and Delaunay triangulations of random dyadic points), sr 15% (1-D nested, shifted "
-            "non-nested and 2-D nested pairs), extrude 23% (0/1/2-D bases, 1-4 layers, increasing "
+            "non-nested and 2-D nested pairs), extrude 23% (0/1/2-D bases incl. permuted numberings and subdomains of real md-grids with "
+            "crossing fractures, 1-4 layers, increasing "
             "non-negative or decreasing non-positive z, mixed-sign error inputs). non-trivial = more than "
             "one parent cell or ratio/layers > 1")
     trusted = ["float outputs compared with the exact model within 1e-9*(1+|x|) on dyadic inputs",
@@ -200,7 +266,8 @@ class C23(Prop):
             if r < 0.25:
                 yield {"kind": "ref1d", "grid": gen_1d(rng, tier), "ratio": rng.choice([1, 2, 2, 3, 4, 5])}
             elif r < 0.37:
-                yield {"kind": "remesh", "grid": gen_1d(rng, tier, renumber=False), "m": rng.randint(2, 9)}
+                yield {"kind": "remesh", "grid": gen_1d(rng, tier), "m": rng.randint(2, 9),
+                       "pre_refine": rng.choice([None, None, 2, 3])}
             elif r < 0.62:
                 yield {"kind": "reftri", "grid": gen_tri(rng, tier)}
             elif r < 0.77:
@@ -220,13 +287,26 @@ class C23(Prop):
         r = rng.random()
         if r < 0.15:
             base = {"kind": "point", "p": [rng.randint(-4, 4) / 2.0, rng.randint(-4, 4) / 2.0, 0.0]}
-        elif r < 0.45:
-            rec = gen_1d(rng, tier, embed=False, renumber=False)
+        elif r < 0.4:
+            rec = gen_1d(rng, tier, embed=False, renumber=True)
             if rng.random() < 0.5:
                 rec["sy"] = rng.choice([0.5, 1.0, -1.0])
+                if rec.get("renum"):
+                    rec["renum"] = gen_renum(rng, build_1d({k: v for k, v in rec.items() if k != "renum"}))
             base = {"kind": "line", "rec": rec}
-        elif r < 0.6:
+        elif r < 0.55:
+            # real fracture grids of an md-grid with an X- or T-intersection
+            nx, ny = rng.randint(2, 3), rng.randint(2, 3)
+            y0 = rng.randint(1, ny - 1)
+            x0 = rng.randint(1, nx - 1)
+            f1 = [[0, nx], [y0, y0]]
+            f2 = [[x0, x0], [0 if rng.random() < 0.6 else y0, ny]]
+            base = {"kind": "frac", "fracs": [f1, f2], "dims": [nx, ny],
+                    "dim": rng.choice([1, 1, 1, 2, 0]), "pick": rng.randint(0, 3)}
+        elif r < 0.68:
             base = {"kind": "cart2", "dims": [rng.randint(1, 3), rng.randint(1, 2)]}
+            if rng.random() < 0.5:
+                base["renum"] = gen_renum(rng, build_base(base))
         else:
             base = {"kind": "tri", "rec": gen_tri(rng, tier)}
         k = rng.randint(1, 4)
@@ -254,6 +334,13 @@ class C23(Prop):
         h.compute_geometry()
         return g, h
 
+    def _remesh_input(self, case):
+        g = build_1d(case["grid"])
+        if case.get("pre_refine"):
+            # the output of refine_grid_1d numbers its nodes cell by cell, not along the line
+            g = rf.refine_grid_1d(g, case["pre_refine"])
+        return g
+
     def run_impl(self, case):
         k = case["kind"]
         if k == "ref1d":
@@ -265,7 +352,7 @@ class C23(Prop):
                     "vol": h.cell_volumes.tolist(), "pvol": g.cell_volumes.tolist(),
                     "dim": int(h.dim), "nfaces": int(h.num_faces)}
         if k == "remesh":
-            g = build_1d(case["grid"])
+            g = self._remesh_input(case)
             h = rf.remesh_1d(g, case["m"])
             s, e = g.get_all_boundary_nodes()
             return {"nodes": h.nodes.tolist(), "start": g.nodes[:, s].tolist(), "end": g.nodes[:, e].tolist(),
@@ -302,9 +389,17 @@ class C23(Prop):
                 h, cm, fm = ge.extrude_grid(g, np.array(case["z"], dtype=float))
             except ValueError as e:
                 if "positive or negative" not in str(e):
-                    raise
+                    # raising on a valid grid is a violation, not a broken tie
+                    return {"err": "Other", "what": f"ValueError: {e}"}
                 return {"err": "ValueErr"}
+            cn = h.cell_nodes().tocsc()
+            pn = g.cell_nodes().tocsc() if g.dim > 0 else None
             return {"nodes": h.nodes.tolist(), "cmap": [[int(i) for i in np.asarray(c)] for c in cm],
+                    "cnodes": [[int(i) for i in cn.indices[cn.indptr[j]:cn.indptr[j + 1]]]
+                               for j in range(h.num_cells)],
+                    "pnodes": ([[int(i) for i in pn.indices[pn.indptr[j]:pn.indptr[j + 1]]]
+                                for j in range(g.num_cells)] if pn is not None else None),
+                    "pxy": (g.nodes[:2].T.tolist() if g.dim > 0 else g.cell_centers[:2].T.tolist()),
                     "vol": h.cell_volumes.tolist(), "pvol": g.cell_volumes.tolist(),
                     "cc": h.cell_centers.tolist(), "pcc": g.cell_centers.tolist(),
                     "dim": int(h.dim), "ncells": int(h.num_cells)}
@@ -345,12 +440,25 @@ class C23(Prop):
                 return "non-positive cell volume"
             if abs(vol.sum() - pvol.sum()) > TOL * (1 + pvol.sum()):
                 return f"total length {pvol.sum()} -> {vol.sum()}"
-            a, b = np.array(res["start"]), np.array(res["end"])
+            # the old domain, found geometrically (independent of any node numbering and of
+            # get_all_boundary_nodes): the two extreme old nodes along the line
+            g = self._remesh_input(case)
+            far = int(np.argmax(np.linalg.norm(g.nodes - g.nodes[:, [0]], axis=0)))
+            d = g.nodes[:, far] - g.nodes[:, 0]
+            par = d @ (g.nodes - g.nodes[:, [0]]) / (d @ d)
+            a, b = g.nodes[:, int(np.argmin(par))], g.nodes[:, int(np.argmax(par))]
+            if abs(np.linalg.norm(b - a) - pvol.sum()) > TOL * (1 + pvol.sum()):
+                return None   # the old grid is not one straight connected line: outside the domain
             x = np.array(res["nodes"]).reshape(3, -1)
+            ts = []
             for i in range(x.shape[1]):
                 t = np.dot(x[:, i] - a, b - a) / np.dot(b - a, b - a)
+                ts.append(t)
                 if t < -TOL or t > 1 + TOL or np.linalg.norm(a + t * (b - a) - x[:, i]) > TOL:
                     return f"node {i} outside the old domain"
+            if min(ts) > TOL or max(ts) < 1 - TOL:
+                return (f"the remeshed grid covers only [{min(ts):.6g}, {max(ts):.6g}] of the old "
+                        "domain (parametrised 0..1)")
             return None
         if k == "reftri":
             g = build_tri(case["grid"])
@@ -412,6 +520,8 @@ class C23(Prop):
         if k == "extrude":
             z = case["z"]
             mixed = not (all(x >= 0 for x in z) or all(x <= 0 for x in z))
+            if res.get("err") == "Other":
+                return None if mixed else f"valid grid and layer sequence raised {res['what'][:80]}"
             if "err" in res:
                 return None if mixed else "valid layer sequence rejected"
             if mixed:
@@ -439,6 +549,25 @@ class C23(Prop):
                     if np.linalg.norm(cc[:2, j] - pcc[:2, c]) > 1e-9 or not (
                             min(z[kk], z[kk + 1]) < cc[2, j] < max(z[kk], z[kk + 1])):
                         return f"child {j} of cell {c} is not inside its prism layer"
+            # nesting, node by node: child k of cell c is the prism over c between z[k] and
+            # z[k+1]: each of its nodes sits over a node of c at one of the two heights, and
+            # every node of c occurs at both heights
+            x = np.array(res["nodes"]).reshape(3, -1)
+            pxy = np.array(res["pxy"]).reshape(-1, 2)
+            for c, row in enumerate(res["cmap"]):
+                corners = pxy[res["pnodes"][c]] if res["pnodes"] is not None else pxy[[c]]
+                for kk, j in enumerate(row):
+                    want = {(i, lev) for i in range(len(corners)) for lev in (0, 1)}
+                    for n in res["cnodes"][j]:
+                        hit = [i for i in range(len(corners))
+                               if np.linalg.norm(corners[i] - x[:2, n]) <= 1e-9]
+                        lev = [l for l in (0, 1) if abs(x[2, n] - z[kk + l]) <= 1e-9]
+                        if not hit or not lev:
+                            return (f"node {n} of child {j} (layer {kk}) is not a corner of the prism "
+                                    f"over parent cell {c}")
+                        want.discard((hit[0], lev[0]))
+                    if want:
+                        return f"child {j} (layer {kk}) does not span the whole prism over parent cell {c}"
             return None
         return None
 
@@ -470,6 +599,8 @@ class C23(Prop):
         if k == "extrude":
             g = build_base(case["base"])
             nodes = g.nodes if g.dim > 0 else g.cell_centers
+            if res.get("err") == "Other":
+                return None
             if "err" in res:
                 out, vols, newvols = "(Err ValueErr)", "[]", "[]"
             else:
